@@ -59,7 +59,8 @@ func main() {
 		if *strict {
 			log.Fatal(err)
 		}
-		fmt.Fprintln(os.Stderr, "warning:", err)
+		fmt.Fprintln(os.Stderr, "error:", err)
+		os.Exit(1)
 	}
 }
 
